@@ -96,6 +96,8 @@ fn check_item(it: &Item) -> Report {
     };
     let mut ecfg = ExploreCfg::new(Mode::O, cfg.nx.max(cfg.ny).max(2) - 1);
     ecfg.timeout_ms = cfg.timeout_ms;
+    ecfg.max_paths = 60_000;
+    ecfg.max_seconds = 90;
     let (paths, st) = explore(&ecfg, || {
         c05::assume_valid_axes(cfg, &a);
         for q in &a.qs {
@@ -116,6 +118,9 @@ fn check_item(it: &Item) -> Report {
     let mut n_ok = 0;
     let mut canary_done = false;
     for (pi, p) in paths.iter().enumerate() {
+        if chk.rep.findings.iter().any(|f| f.reproduced == Some(true)) {
+            break; // this configuration is refuted: no need to decide the remaining paths
+        }
         let pcs = chk.pc(&p.pc);
         match &p.result {
             Ok((Ok(oa), Ok(ob), oc)) => {
@@ -134,7 +139,25 @@ fn check_item(it: &Item) -> Report {
                         let mut q = pcs.clone();
                         q.push(format!("(not (= {} {}))", chk.term(u), chk.term(w)));
                         if let Verdict::Cex(vals) = chk.must_unsat(what, &format!("path {pi} query {qi}: lane {} {what}", it.lane), &q, &all_vars) {
-                            let m = c05::model_f64(&vals);
+                            // models to replay: the solver's own, then models in which the shared lane holds IEEE special
+                            // values (-0, +inf, -inf): a dependency through a value-triggered shortcut only shows there
+                            let mut models = vec![c05::model_f64(&vals)];
+                            for special in ["(_ -zero 11 53)", "(_ +oo 11 53)", "(_ -oo 11 53)"] {
+                                let mut qq = q.clone();
+                                for k in lane_positions(cfg, it.lane) {
+                                    qq.push(format!("(= {} {special})", chk.term(a.prob.data[k])));
+                                }
+                                let (ans, v2) = chk.model(&qq, &all_vars);
+                                if matches!(ans, crate::engine::smt::Answer::Sat) {
+                                    models.push(c05::model_f64(&v2));
+                                }
+                            }
+                            let mut m = models[0].clone();
+                            let mut worst = 0.0f64;
+                            let mut shown = String::new();
+                            let (mut ra, mut va) = (String::new(), None);
+                            for mm in &models {
+                                m = mm.clone();
                             let (pa, qs) = c05::native_problem(cfg, &m, "");
                             let (mut pb, _) = c05::native_problem(&cfg_b, &m, "b");
                             pb.x = pa.x.clone();
@@ -144,9 +167,9 @@ fn check_item(it: &Item) -> Report {
                             }
                             pb.vl[it.lane] = pa.vl[it.lane];
                             pb.vr[it.lane] = pa.vr[it.lane];
-                            let (ra, va) = native_outcome(&pa, &cfg.call, &qs, 0.0);
-                            let mut worst = 0.0f64;
-                            let mut shown = String::new();
+                            let (ra_, va_) = native_outcome(&pa, &cfg.call, &qs, 0.0);
+                            ra = ra_.clone();
+                            va = va_.clone();
                             for poison in [None, Some(f64::NAN), Some(f64::INFINITY), Some(1e300)] {
                                 let mut pbb = pb.clone();
                                 if let Some(v) = poison {
@@ -176,6 +199,10 @@ fn check_item(it: &Item) -> Report {
                                     worst = f64::INFINITY;
                                 }
                                 if worst > 0.0 || what == "lane-alone" {
+                                    break;
+                                }
+                            }
+                                if worst > 0.0 {
                                     break;
                                 }
                             }
